@@ -101,6 +101,7 @@ theorem step_wire (cfg : Cfg) (s : St) (x : Act) : ∃ l, (step cfg s x).wire = 
     repeat' split
     all_goals exact ⟨[], by simp [setThr]⟩
   | peerEof => simp only [step]; split <;> exact ⟨[], by simp⟩
+  | emitFail t => simp only [step]; split <;> exact ⟨[], by simp [setThr]⟩
   | unlink => simp only [step]; split <;> exact ⟨[], by simp [setClosed]⟩
   | shutdownRead => exact ⟨[], by simp [step]⟩
   | setMode m => exact ⟨[], by simp [step]⟩
@@ -221,6 +222,10 @@ theorem step_frame (cfg : Cfg) (s : St) (x : Act) : Frame s (step cfg s x) := by
     simp only [step]; split
     · exact Frame.refl s
     · exact ⟨rfl, rfl, rfl, id, id, fun _ => rfl, id⟩
+  | emitFail t =>
+    simp only [step]; split
+    · exact Frame.trans (b := _) ⟨rfl, rfl, rfl, id, id, id, id⟩ (frame_setThr _ t _)
+    · exact Frame.refl s
   | unlink =>
     simp only [step]; split
     · exact Frame.refl s
@@ -333,6 +338,7 @@ theorem step_sofar (cfg : Cfg) (s : St) (x : Act) (hi : SofarInv s) : SofarInv (
     repeat' split
     all_goals exact hi
   | peerEof => simp only [step]; split <;> exact hi
+  | emitFail t => simp only [step]; split <;> exact hi
   | unlink => simp only [step]; split <;> exact hi
   | shutdownRead => exact hi
   | setMode m => exact hi
@@ -384,6 +390,7 @@ theorem eqcore_holdOrDone (s : St) (t : Nat) (ms : List Msg) (k : Kont) (old : T
   · exact eqcore_setThr s t old _ h (by simpa [TSt.heldAdj] using hms) hi
 
 theorem step_eqcore (cfg : Cfg) (hc : cfg.creditDiscarded = true) (s : St) (x : Act)
+    (hx : ∀ t, x ≠ .emitFail t)
     (ha : acct (step cfg s x) = true) (hi : EqCore s) : EqCore (step cfg s x) := by
   have ha0 : acct s = true := acct_mono s _ (step_frame cfg s x) ha
   have hflag : (s.closed || s.eofRecv || !s.active) = false := by
@@ -521,14 +528,16 @@ theorem step_eqcore (cfg : Cfg) (hc : cfg.creditDiscarded = true) (s : St) (x : 
       exact eqcore_holdOrDone _ t _ _ (.idle r) (by rw [h2]; exact hr) (by rw [h9]; rfl)
         (eqcore_congr s _ h1 h2 h3 h4 h5 hi)
     · exact hi
+  | emitFail t => exact absurd rfl (hx t)
   | unlink => simp only [step]; split <;> exact hi
 
 /-- while the receiver accounts: acks written + acks/reads pending + in_window_sofar = consumed + discarded -/
 def EqInv (s : St) : Prop := acct s = true → EqCore s
 
-theorem step_eqinv (cfg : Cfg) (hc : cfg.creditDiscarded = true) (s : St) (x : Act) (hi : EqInv s) :
-    EqInv (step cfg s x) := by
+/-- (an acknowledgement whose `_send_user_message` raises is lost, so the equality needs "no failed send") -/
+theorem step_eqinv (cfg : Cfg) (hc : cfg.creditDiscarded = true) (s : St) (x : Act)
+    (hx : ∀ t, x ≠ .emitFail t) (hi : EqInv s) : EqInv (step cfg s x) := by
   intro ha
-  exact step_eqcore cfg hc s x ha (hi (acct_mono s _ (step_frame cfg s x) ha))
+  exact step_eqcore cfg hc s x hx ha (hi (acct_mono s _ (step_frame cfg s x) ha))
 
 end PV.Chan
